@@ -20,6 +20,9 @@ XIXI_BUGS = [
     ('OpenLeaksLock', dict(Features='{"powerloss", "torn"}', MaxOps=2, MaxFaults=1, MaxMerges=0, MaxRestarts=0, Bug2='"TornTailFails"'), ['LockDiscipline']),
     ('TornTailFails', dict(Features='{"powerloss", "torn"}', MaxOps=2, MaxFaults=1, MaxMerges=0, MaxRestarts=0), ['NeverFails']),
     ('MergeMarksUnflushed', dict(Features='{"merge", "delete", "powerloss", "restart"}', MaxOps=3, MaxFaults=1, Vals='{1, 2}', BigVals='{}'), ['RecoveredOK']),
+    ('LeftoverKept', dict(Features='{"merge", "delete", "crash", "restart"}', MaxOps=4, MaxFaults=1, MaxMerges=2, MaxRestarts=2, Vals='{1}', BigVals='{}'), ['RecoveredOK', 'MapSemantics']),
+    ('LazyHint', dict(Features='{"merge", "delete", "restart"}', MaxOps=3, MaxMerges=2, MaxRestarts=2, Vals='{1}', BigVals='{}'), ['RecoveredOK', 'MapSemantics']),
+    ('AdoptBreaks', dict(Features='{"merge", "crash", "restart"}', Keys='{1, 2, 3}', MaxOps=5, MaxFaults=1, Vals='{1, 2}', BigVals='{}'), ['RecoveredOK', 'MapSemantics']),
     # (since the fix F30 the marker waits for the database lock, which an open batch holds: the early publication
     #  is only harmful together with the unflushed marker)
     ('BatchFlushPublishes', dict(Features='{"batch", "delete", "merge", "crash"}', MaxOps=4, MaxFaults=1, MaxRestarts=0, Vals='{1}', BigVals='{}', Bug2='"MergeMarksUnflushed"'), ['RecoveredOK']),
